@@ -661,10 +661,8 @@ fn parse_positional<'a>(
                 update_state_with_new_positional(pos_index)
             }
         }
-        ParseState::Opt(..) => unreachable!(
-            "This branch won't be hit,
-            because ParseState::Opt should not be seen as a positional argument and passed to this function."
-        ),
+        // An unknown flag while an option still takes values: the parser hands it to that option
+        ParseState::Opt((opt, count)) => (parse_opt_value(opt, count), pos_index),
     }
 }
 
